@@ -66,11 +66,15 @@ class FsModel:
                 self.apply({'kind': 'delete', 'path': dst})
             if p in self.files:
                 self.files[dst] = self.files.pop(p)
+                if mt is not None:
+                    self.files[dst][1] = mt
             elif p in self.dirs:
                 for f in [f for f in self.files if f.startswith(p + '/')]:
                     self.files[dst + f[len(p):]] = self.files.pop(f)
                 for d in [d for d in list(self.dirs) if d == p or d.startswith(p + '/')]:
                     self.dirs[dst + d[len(p):]] = self.dirs.pop(d)
+                if mt is not None:
+                    self.dirs[dst] = mt
             if dmt not in (None, 'keep') and self.parent(dst) != self.parent(p):
                 self.dirs[self.parent(dst)] = dmt
         elif kind == 'mkdir':
@@ -221,23 +225,20 @@ class Gen:
     def rename(self, dotted, new):
         m = self.mods.pop(dotted)
         st = self.stamp()
+        # a rename keeps the file's old mtime: on a real file system that is what happens, and it is
+        # exactly the non-monotone case; in the monotone regime the renamed entry is touched as well
+        # (`mv` + `touch`), expressed by the op's own 'mt'
+        extra = {'mt': st} if self.policy == 'monotone' else {}
         if m['kind'] == 'module':
-            self.fs('rename', self.path_of(dotted, 'module'), dst=self.path_of(new, 'module'), dmt=self.dstamp(st))
+            self.fs('rename', self.path_of(dotted, 'module'), dst=self.path_of(new, 'module'), dmt=self.dstamp(st), **extra)
             if m.get('stub'):
                 self.fs('delete', self.base(dotted) + '.pyi', dmt=self.dstamp(st))
                 m['stub'] = False
         else:
-            self.fs('rename', self.base(dotted), dst=self.base(new), dmt=self.dstamp(st))
+            self.fs('rename', self.base(dotted), dst=self.base(new), dmt=self.dstamp(st), **extra)
             for k in [k for k in list(self.mods) if k.startswith(dotted + '.')]:
                 self.mods[new + k[len(dotted):]] = self.mods.pop(k)
                 self.all_names.add(new + k[len(dotted):])
-        if self.policy == 'monotone':
-            # a rename keeps the file's old mtime: on a real file system this
-            # is what happens, and it is exactly the non-monotone case; in the
-            # monotone regime the renamed file is touched like `mv` + `touch`
-            p = self.path_of(new, m['kind']) if m['kind'] != 'namespace' else None
-            if p:
-                self.fs('utime', p, mt=st)
         self.mods[new] = m
         self.all_names.add(new)
 
@@ -538,12 +539,6 @@ def monotone_restamp(case, files=True, dirs=True):
                 now = st
             fsmax = st
             if files and op['kind'] != 'delete':
-                if op['kind'] == 'rename':
-                    out.append(op)
-                    out.append({'op': 'fs', 'kind': 'utime', 'path': op['dst'], 'mt': st})
-                    if dirs:
-                        op['dmt'] = st
-                    continue
                 op['mt'] = st
             if dirs and op['kind'] in ('write', 'write_via_rename', 'delete', 'rename', 'mkdir'):
                 op['dmt'] = st
@@ -571,11 +566,9 @@ def is_monotone(case):
         elif op['op'] in ('query', 'project_search'):
             last_query = now
         elif op['op'] == 'fs':
-            if op['kind'] == 'rename':
-                continue        # must be followed by a utime (checked as its own op)
             mt = op.get('mt')
             for s in ([mt] if op['kind'] != 'delete' else []) + \
-                    ([op.get('dmt')] if op['kind'] in ('write_via_rename', 'delete', 'mkdir') or
+                    ([op.get('dmt')] if op['kind'] in ('write_via_rename', 'delete', 'mkdir', 'rename') or
                      (op['kind'] == 'write') else []):
                 if s is None and op['kind'] == 'write':
                     continue    # plain overwrite of an existing file does not touch the directory
